@@ -270,4 +270,45 @@ func runC09(c *Ctx) {
 			c09Case(c, "shared-questions", m, sz, false, true)
 		}
 	}
+	// header, question and OPT record alone fill the budget to the octet, leave a few octets, or exceed it by a few: a
+	// long question name and an OPT record with a padding option; nothing else fits, the OPT record must stay
+	for i, n := 0, c.Scale(12, 200); i < n; i++ {
+		var labels []string
+		total := 0
+		want := 120 + r.Intn(130)
+		for total < want {
+			l := strings.Repeat(string(rune('a'+r.Intn(26))), 1+r.Intn(min(50, want-total+1)))
+			labels = append(labels, l)
+			total += len(l) + 1
+		}
+		qname := strings.Join(labels, ".") + "."
+		size := []int{512, 0, 300, 700, 1232}[r.Intn(5)]
+		S := max(size, 512)
+		for _, slack := range []int{-3, -1, 0, 1, 2, 11, 12, 30} {
+			m := new(dns.Msg)
+			m.SetQuestion(qname, dns.TypeA)
+			m.Response = true
+			m.Id = uint16(r.Intn(65536))
+			for k, na := 0, 1+r.Intn(3); k < na; k++ {
+				m.Answer = append(m.Answer, &dns.A{Hdr: dns.RR_Header{Name: qname, Rrtype: dns.TypeA, Class: 1, Ttl: 60}, A: net.IPv4(192, 0, 2, byte(k)).To4()})
+			}
+			if r.Bool() {
+				m.Ns = append(m.Ns, &dns.NS{Hdr: dns.RR_Header{Name: qname, Rrtype: dns.TypeNS, Class: 1, Ttl: 60}, Ns: "ns." + qname})
+			}
+			hq := 12 + len(qname) + 1 + 4
+			pad := S - slack - hq - 11 - 4
+			if pad < 0 {
+				continue
+			}
+			opt := &dns.OPT{Hdr: dns.RR_Header{Name: ".", Rrtype: dns.TypeOPT}}
+			opt.SetUDPSize(uint16(S))
+			opt.Option = append(opt.Option, &dns.EDNS0_PADDING{Padding: make([]byte, pad)})
+			if r.Bool() {
+				m.Extra = append(m.Extra, &dns.A{Hdr: dns.RR_Header{Name: "x." + qname[len(labels[0])+1:], Rrtype: dns.TypeA, Class: 1, Ttl: 60}, A: net.IPv4(192, 0, 2, 99).To4()})
+			}
+			m.Extra = append(m.Extra, opt)
+			c.Hit(fmt.Sprintf("opt-fills-budget:slack=%d", slack))
+			c09Case(c, "opt-fills-budget", m, size, false, true)
+		}
+	}
 }
